@@ -18,8 +18,8 @@ C13-7 C13-8 C13-9 C10-7 C10-8 C10-9 C06-7 C02-8
 C20-8 C20-9 C19-8 C19-9 C15-7 C15-8 C17-8 C17-9 C22-9""".split()
 AE_FIRST = "C03-2 C04-1 C04-2 C05-1 C05-3 C09-2 C18-2 C01-5 C03-4 C04-4 C04-5 C04-6 C05-4 C05-5 C06-6 C09-5 C17-5 C10-5 C15-4 C18-5 C16-9 C11-9 C05-7 C05-8 C05-9 C07-8 C07-9 C01-7 C03-7 C04-7 C04-8 C04-9 C06-9 C02-7 C02-9".split()
 AE_FIRST.append("C18-9")
-MISSED_FIRST += ["C12-10"]  # round four
-AE_FIRST += ["C02-10", "C16-10"]
+MISSED_FIRST += ["C12-10", "C07-10", "C17-10"]  # round four
+AE_FIRST += ["C02-10", "C16-10", "C09-10"]
 
 
 def rule_of(line: str) -> str:
